@@ -30,7 +30,7 @@ ASSUMPTIONS = ['entry ids in the directory are distinct']
 
 MENU = [
     # name, eid, sev, flags, creator, subsys, commit, comp, sections
-    ('m_serv.pel', 0x50000008, 0x40, 0xA000, 'O', 0x8D, '2024010203040506', 0x1000, ['PS']),
+    ('m_serv.pel', 0x50000008, 0x40, 0xA000, 'O', 0x8D, '2024010203040506', 0x1000, ['PS', 'UD']),
     ('a_hidden.pel', 0x50000007, 0x40, 0x6000, 'B', 0x10, '2024020304050607', 0x2000, ['PS']),
     ('Z_info', 0x50000001, 0x00, 0x0000, 'O', 0x20, '2024030405060708', 0x3000, ['PS']),
     ('B_infosa.txt', 0x50000006, 0x00, 0x8000, 'H', 0x30, '2024040506070809', 0x4142, ['PS']),
@@ -52,7 +52,7 @@ def pel_bytes(i):
         if t == 'PS':
             sections.append({'t': 'PS', 'ascii': ('BD%02X%04X' % (0x8D + i, 0x1000 + i)).ljust(32)})
         elif t == 'UD':
-            sections.append({'t': 'UD', 'comp': 0xABCD, 'payload': bytes([i] * 12).hex()})
+            sections.append({'t': 'UD', 'comp': 0x4142, 'payload': bytes([i] * 12).hex()})
         else:
             sections.append({'t': t})
     return pelgen.encode_pel(pelgen.pel_from_spec({
